@@ -140,7 +140,7 @@ type fileCmtCase struct {
 	Order     []bool   `json:"order"` // call order: true = next HeaderComment, false = next PackageComment
 }
 
-var fileCmtTexts = []string{"plain text", "", " ", "Package p does things.", "multi\nline text", "trailing newline\n", "code: x := y{", "} else {", "\"quotes\" `and` 'more'", "日本語 ünï", "a\n\nparagraph break", "func main() {", "\\ backslash", "tab\there", "x // y", "\nleading newline", "- list item\n- another", "# heading", "Deprecated: no", "\t indented", "100%", "import \"x\"", " /* TODO", "  // a\nb := c"}
+var fileCmtTexts = []string{"plain text", "", " ", "Package p does things.", "multi\nline text", "trailing newline\n", "code: x := y{", "} else {", "\"quotes\" `and` 'more'", "日本語 ünï", "a\n\nparagraph break", "func main() {", "\\ backslash", "tab\there", "x // y", "\nleading newline", "- list item\n- another", "# heading", "Deprecated: no", "\t indented", "100%", "import \"x\"", " /* TODO", "  // a\nb := c", "keep a\rb := 1", "crlf\r\nsecond"}
 var canonPaths = []string{"", "a.b/c", "example.com/x/y", "weird \"quoted\" path", "日本/パス", "back\\slash", "new\nline", "tab\tpath", "`backquote`", "a.b/c // x", "a.b/c */ x"}
 
 func genFileCmt(rnd *rand.Rand) fileCmtCase {
@@ -158,10 +158,14 @@ func genFileCmt(rnd *rand.Rand) fileCmtCase {
 		}
 		return marker + " " + tx
 	}
-	for i, n := 0, rnd.Intn(5); i < n; i++ {
+	nh, np := rnd.Intn(5), rnd.Intn(5)
+	if rnd.Intn(10) == 0 { // a licence header given line by line, a long package doc
+		nh, np = 5+rnd.Intn(12), 3+rnd.Intn(12)
+	}
+	for i := 0; i < nh; i++ {
 		fc.Headers = append(fc.Headers, pick(i, "HDR"))
 	}
-	for i, n := 0, rnd.Intn(5); i < n; i++ {
+	for i := 0; i < np; i++ {
 		fc.Packages = append(fc.Packages, pick(i, "PKG"))
 	}
 	fc.Canonical = canonPaths[rnd.Intn(len(canonPaths))]
